@@ -185,10 +185,13 @@ def repro_source(entry, recipe, buf):
 
 
 def _unit_corpus(unit, stride_to=None):
+    """stride_to: None = the whole corpus; n = an evenly spread sub-corpus of n units; {"quick": n} = per tier"""
+
     def corpus(tier):
         rs = unit.corpus(tier)
-        if stride_to and len(rs) > stride_to:  # evenly spread sub-corpus, deterministic
-            rs = [rs[i * len(rs) // stride_to] for i in range(stride_to)]
+        n = stride_to.get(tier) if isinstance(stride_to, dict) else stride_to
+        if n and len(rs) > n:  # evenly spread sub-corpus, deterministic
+            rs = [rs[i * len(rs) // n] for i in range(n)]
         return [(r, unit.ref(r)) for r in rs]
 
     return corpus
@@ -370,8 +373,21 @@ def _extras(reg):
         return out_
 
     def s1_small(tier):
-        ws = [(1, 1), (2, 2), (4, 4), (8, 8)] if tier == "quick" else [(a, b) for a in (1, 2, 4, 8) for b in (1, 2, 4, 8)]
-        return [{"sub": sub, "step_w": a, "err_w": b, "ts_len": 0} for sub in range(0, 10) for a, b in (ws if 1 <= sub <= 8 else ws[:1])]
+        """subservice 0..9 x the field widths the subservice reads (step ID: 5, 6; failure code: 2, 4, 6, 8)"""
+        W = (1, 2, 4, 8)
+        out_ = []
+        for sub in range(0, 10):
+            step, fail = 1 <= sub <= 8 and RP.srv1_has_step(sub), 1 <= sub <= 8 and RP.srv1_has_failure(sub)
+            if step and fail:
+                ws = [(a, a) for a in W] if tier == "quick" else [(a, b) for a in W for b in W]
+            elif step:
+                ws = [(a, 1) for a in W]
+            elif fail:
+                ws = [(1, b) for b in W]
+            else:
+                ws = [(1, 1)]
+            out_ += [{"sub": sub, "step_w": a, "err_w": b, "ts_len": 0} for a, b in ws]
+        return out_
 
     def s1_bind(r):
         from spacepackets.ecss.pus_1_verification import Service1Tm, UnpackParams
@@ -426,7 +442,8 @@ def _extras(reg):
     for k in RC.KINDS:
         u = UP.UNITS[k]
         out.append(Entry("x:from_raw_to_holder:" + k, "PduFactory.from_raw_to_holder", lambda r: (lambda b: L().PduFactory.from_raw_to_holder(b)),
-                         _unit_corpus(u, 6), prefix=True, family="pdu", crc=u.crc_protected, unit=u, repro=("cfdp", "PduFactory.from_raw_to_holder({b})")))
+                         _unit_corpus(u, {"quick": 4, "thorough": 8}), prefix=True, family="pdu", crc=u.crc_protected, unit=u,
+                         repro=("cfdp", "PduFactory.from_raw_to_holder({b})")))
 
     # --- USLP
     from units import uslp as UU
@@ -563,7 +580,9 @@ def entries():
                 ck = lambda r, _u=unit: (r["rule"] in RU.FIXED_RULES, len(_u.ref(r)))  # noqa: E731
                 rep = lambda r, lit, _u=unit, _typed=(dname == "TransferFrameDataField.unpack"): _tfdf_repro(  # noqa: E731
                     {"ft": ("fixed" if r["rule"] in RU.FIXED_RULES else "var") if _typed else None, "trunc": False, "exact": len(_u.ref(r))}, lit)
-            e = Entry(f"{uname}:{dname}", dname, _bind2(fn), _unit_corpus(unit), prefix, steer=dname in STEER or (uname in ("PacketFieldEnum", "FailureNotice")),
+            # the factory adds a dispatch in front of the class decoders: quick runs it on a third of each PDU corpus
+            corp = _unit_corpus(unit, {"quick": 12} if dname == "PduFactory.from_raw" else None)
+            e = Entry(f"{uname}:{dname}", dname, _bind2(fn), corp, prefix, steer=dname in STEER or (uname in ("PacketFieldEnum", "FailureNotice")),
                       family=FAMILY.get(uname), crc=unit.crc_protected, repro=rep, cfgkey=ck, unit=unit)
             out[e.key] = e
     for e in _extras(reg) + _field_entries(reg):
@@ -573,8 +592,9 @@ def entries():
         seen.setdefault(e.name, []).append(e)
     for name, es in seen.items():
         if len(es) > 1:
-            for e in es:
-                e.shared = True
+            if len({x.unit.name for x in es if x.prefix and x.unit is not None}) > 1:  # one entry point, corpora of several unit kinds
+                for e in es:
+                    e.shared = True
             if all(x.cfgkey is None for x in es):  # same call, no configuration: the small strings once
                 for e in es[1:]:
                     e.do_small = False
